@@ -115,3 +115,9 @@ Proof.
     + unfold aw_class. destruct c1, c2, c3, c0; cbn; abytes; reflexivity.
   - intros [Hg [Hv [Hl [Hps [Hn [Hk [fi [Hf HF]]]]]]]].
     destruct (aw_items_data g v psize fi items Hf Hps HF) as [E1 [E2 E3]].
+    assert (Hcnt : N.of_nat (length items) < 256 ^ psize).
+    { unfold aw_max_count in Hn. destruct Hps as [E|E]; rewrite E in *; [change (256 ^ 1) with 256 in *|change (256 ^ 2) with 65536 in *]; lia. }
+    split; [|split].
+    + rewrite E1. unfold aencode_header, amk. cbn [map concat oh_g oh_v oh_details oh_payload apayload_bytes].
+      rewrite app_nil_r. destruct Hps as [E|E]; subst psize; cbn [N.eqb Pos.eqb aqualifier adetail_bytes].
+      * rewrite ale_bytes_1 by (change (256 ^ 1) with 256 in Hcnt; lia). reflexivity.
